@@ -1,4 +1,4 @@
-Require Import Bytes Utf8Spec Check.
+Require Import Bytes Utf8Spec Check BytesProofs.
 From Coq Require Import ZifyBool ZifyN ZifyNat.
 Open Scope N_scope.
 
@@ -123,9 +123,6 @@ Qed.
 
 Lemma parse_close_short p : (length p < 2)%nat -> parse_close p = (0, []).
 Proof. destruct p as [|a [|b r]]; simpl; intros; try reflexivity; lia. Qed.
-
-Lemma In_firstn {A} (x : A) n l : In x (firstn n l) -> In x l.
-Proof. revert l; induction n as [|n IH]; intros [|y l]; simpl; try tauto. intros [H|H]; auto. Qed.
 
 Lemma close_body_wf c r : wf_bytes r -> wf_bytes (new_close_body c r).
 Proof.
